@@ -3,7 +3,7 @@
 # dsdobjects.dsdparser.pil_parser.py
 #   - copy and/or modify together with tests/dsdparser/test_pil_parser.py
 #
-from pyparsing import (Word, Literal, Group, Suppress, Optional, ZeroOrMore,
+from pyparsing import (Word, Literal, Keyword, Group, Suppress, Optional, ZeroOrMore,
         Combine, White, OneOrMore, alphas, alphanums, nums, delimitedList,
         StringStart, StringEnd, Forward, LineEnd, pythonStyleComment,
         ParseElementEnhance)
@@ -24,8 +24,10 @@ def pil_document_setup():
     O = Optional
     C = Combine
     L = Literal
+    K = Keyword
 
-    identifier = W(alphanums + "_-")
+    idchars = alphanums + "_-"
+    identifier = W(idchars)
     number = W(nums, nums)
 
     num_flt = C(number + O(L('.') + number))
@@ -39,24 +41,24 @@ def pil_document_setup():
     dotbracket = W("(.)+ ")
     dlength = number | L('short') | L('long')
 
-    dl_domain = G(T(S("length") + domain + S(assign) + dlength + OneOrMore(LineEnd().suppress()), 'dl-domain')) \
-              | G(T(S("domain") + domain + S(assign) + dlength + OneOrMore(LineEnd().suppress()), 'dl-domain')) \
-              | G(T(S("sequence") + domain + S(assign) + dlength + OneOrMore(LineEnd().suppress()), 'dl-domain'))
+    dl_domain = G(T(S(K("length", idchars)) + domain + S(assign) + dlength + OneOrMore(LineEnd().suppress()), 'dl-domain')) \
+              | G(T(S(K("domain", idchars)) + domain + S(assign) + dlength + OneOrMore(LineEnd().suppress()), 'dl-domain')) \
+              | G(T(S(K("sequence", idchars)) + domain + S(assign) + dlength + OneOrMore(LineEnd().suppress()), 'dl-domain'))
 
-    sl_domain = G(T(S("sequence") + domain + S(assign) + constraint + O(S(assign) + number) + OneOrMore(LineEnd().suppress()), 'sl-domain'))
+    sl_domain = G(T(S(K("sequence", idchars)) + domain + S(assign) + constraint + O(S(assign) + number) + OneOrMore(LineEnd().suppress()), 'sl-domain'))
 
     # strand and sup-sequence are the same thing ...
-    comp_domain = G(T(S("sup-sequence") + identifier + S(assign) \
+    comp_domain = G(T(S(K("sup-sequence", idchars)) + identifier + S(assign) \
             + G(OneOrMore(domain)) + O(S(assign) + number) \
             + OneOrMore(LineEnd().suppress()), 'composite-domain'))
-    strand = G(T(S("strand") + identifier + S(assign) \
+    strand = G(T(S(K("strand", idchars)) + identifier + S(assign) \
             + G(OneOrMore(domain)) + O(S(assign) + number) \
             + OneOrMore(LineEnd().suppress()), 'composite-domain'))
 
-    strandcomplex = G(T(S("complex") + identifier + S(assign) + O(LineEnd().suppress()) \
+    strandcomplex = G(T(S(K("complex", idchars)) + identifier + S(assign) + O(LineEnd().suppress()) \
                     + G(OneOrMore(domain)) + O(LineEnd().suppress()) \
                     + dotbracket + OneOrMore(LineEnd().suppress()), 'strand-complex')) \
-                  | G(T(S("structure") + identifier + S(assign) \
+                  | G(T(S(K("structure", idchars)) + identifier + S(assign) \
                     + G(OneOrMore(domain | S('+'))) + S(assign) \
                     + dotbracket + OneOrMore(LineEnd().suppress()), 'strand-complex'))
 
@@ -66,11 +68,11 @@ def pil_document_setup():
     runit = C(ZeroOrMore('/' + cunit) + L('/') + tunit)
     infobox = S('[') + G(O(identifier + S(assign))) + G(gorf + O(S(L('+/-')) + ginf)) + G(runit) + S(']')
 
-    reaction = G(T(S("kinetic") + G(O(infobox)) + G(species) + S('->') + G(species) + OneOrMore(LineEnd().suppress()), 'reaction')) \
-             | G(T(S("reaction") + G(O(infobox)) + G(species) + S('->') + G(species) + OneOrMore(LineEnd().suppress()), 'reaction'))
+    reaction = G(T(S(K("kinetic", idchars)) + G(O(infobox)) + G(species) + S('->') + G(species) + OneOrMore(LineEnd().suppress()), 'reaction')) \
+             | G(T(S(K("reaction", idchars)) + G(O(infobox)) + G(species) + S('->') + G(species) + OneOrMore(LineEnd().suppress()), 'reaction'))
 
-    restingset = G(T(S("state") + identifier + S("=") + S('[') + G(delimitedList(identifier)) + S(']') + OneOrMore(LineEnd().suppress()), 'resting-macrostate')) \
-               | G(T(S("macrostate") + identifier + S("=") + S('[') + G(delimitedList(identifier)) + S(']') + OneOrMore(LineEnd().suppress()), 'resting-macrostate'))
+    restingset = G(T(S(K("state", idchars)) + identifier + S("=") + S('[') + G(delimitedList(identifier)) + S(']') + OneOrMore(LineEnd().suppress()), 'resting-macrostate')) \
+               | G(T(S(K("macrostate", idchars)) + identifier + S("=") + S('[') + G(delimitedList(identifier)) + S(']') + OneOrMore(LineEnd().suppress()), 'resting-macrostate'))
 
     # kernel notation
     sense = Combine(identifier + O(L("^")) + O(L("*")))
